@@ -2,12 +2,15 @@
 """Re-run every stored seed (seeded/<name>/patch.diff) against the current checks in the scratch worktree /tmp/seed/T
 (never /repo) and compare with the recorded verdict.  usage: tools/recheck_seeds.py [pattern]"""
 import json, os, subprocess, sys
-W = "/tmp/seed/T"
+W = os.environ.get("RECHECK_W", "/tmp/seed/T")
+SHARD = os.environ.get("RECHECK_SHARD")   # "k/n": only every n-th seed, offset k
 pat = sys.argv[1] if len(sys.argv) > 1 else ""
 head = subprocess.check_output(["git", "-C", "/repo", "rev-parse", "HEAD"], text=True).strip()
 bad = 0
-for name in sorted(os.listdir("/verif/seeded")):
+for idx, name in enumerate(sorted(os.listdir("/verif/seeded"))):
     if pat and pat not in name:
+        continue
+    if SHARD and idx % int(SHARD.split("/")[1]) != int(SHARD.split("/")[0]):
         continue
     d = os.path.join("/verif/seeded", name)
     meta = json.load(open(os.path.join(d, "meta.json")))
@@ -18,7 +21,7 @@ for name in sorted(os.listdir("/verif/seeded")):
     if r.returncode != 0:
         print("%-45s %-4s patch does not apply to HEAD: %s" % (name, prop, r.stderr.strip()[:80]))
         continue
-    env = dict(os.environ, VERIF_REPO=W, VERIF_EVIDENCE_DIR="/tmp/try_ev_seeds")
+    env = dict(os.environ, VERIF_REPO=W, VERIF_EVIDENCE_DIR=W + ".ev")
     out = subprocess.run(["/verif/check", prop, "--tier", "quick"], env=env, capture_output=True, text=True).stdout
     fired = "VIOLATION property=" in out
     rules = sorted({l.split(":")[0].strip() for l in out.splitlines() if l.startswith("  R-")})
@@ -28,5 +31,5 @@ for name in sorted(os.listdir("/verif/seeded")):
         bad += 1
     print("%-45s %-4s %-8s %s%s" % (name, prop, "fires" if fired else "silent", ",".join(rules)[:60], flag))
 subprocess.run(["git", "-C", W, "checkout", "-q", "--", "."])
-subprocess.run(["rm", "-rf", "/tmp/try_ev_seeds"])
+subprocess.run(["rm", "-rf", W + ".ev"])
 print("changed verdicts:", bad)
